@@ -3,7 +3,7 @@
 # (a checkout of /repo's HEAD), runs the given checks against it through VERIF_REPO, restores the worktree.
 set -u
 P="$1"; shift
-W=/tmp/seedtest
+W=${SEEDW:-/tmp/seedtest}
 git -C $W checkout -q -- . && git -C $W clean -fdq -e Cargo.lock
 git -C $W apply "$P" || { echo "patch does not apply"; exit 2; }
 for c in "$@"; do
